@@ -159,6 +159,77 @@ func (c *Collector) Counter(name string) int64 {
 	return c.counters[name]
 }
 
+// Partial is the serialised state of a shard's collector.
+type Partial struct {
+	Groups   map[string][]*Violation `json:"groups"`
+	Counts   map[string]int          `json:"counts"`
+	Counters map[string]int64        `json:"counters"`
+	Hashes   []uint64                `json:"hashes"`
+	Samples  []any                   `json:"samples"`
+	Notes    []string                `json:"notes"`
+	Inexh    []string                `json:"inexh"`
+}
+
+// ExportPartial writes the collector's state for the parent process to merge.
+func (c *Collector) ExportPartial(path string) error {
+	c.mu.Lock()
+	defer c.mu.Unlock()
+	p := Partial{Groups: map[string][]*Violation{}, Counts: map[string]int{}, Counters: c.counters, Samples: c.samples, Notes: c.notes, Inexh: c.inexh}
+	for s, g := range c.groups {
+		p.Groups[s] = g.first
+		p.Counts[s] = g.count
+	}
+	for h := range c.hashes {
+		p.Hashes = append(p.Hashes, h)
+	}
+	b, err := json.Marshal(p)
+	if err != nil {
+		return err
+	}
+	return os.WriteFile(path, b, 0o644)
+}
+
+// ImportPartial merges a shard's state.
+func (c *Collector) ImportPartial(path string) error {
+	b, err := os.ReadFile(path)
+	if err != nil {
+		return err
+	}
+	var p Partial
+	if err := json.Unmarshal(b, &p); err != nil {
+		return err
+	}
+	c.mu.Lock()
+	defer c.mu.Unlock()
+	for s, vs := range p.Groups {
+		g := c.groups[s]
+		if g == nil {
+			g = &group{}
+			c.groups[s] = g
+		}
+		g.count += p.Counts[s]
+		for _, v := range vs {
+			if len(g.first) < 3 {
+				g.first = append(g.first, v)
+			}
+		}
+	}
+	for k, v := range p.Counters {
+		c.counters[k] += v
+	}
+	for _, h := range p.Hashes {
+		c.hashes[h] = struct{}{}
+	}
+	for _, s := range p.Samples {
+		if len(c.samples) < 5 {
+			c.samples = append(c.samples, s)
+		}
+	}
+	c.notes = append(c.notes, p.Notes...)
+	c.inexh = append(c.inexh, p.Inexh...)
+	return nil
+}
+
 // KnownFinding is one entry of /verif/known_findings.json.
 type KnownFinding struct {
 	Property string `json:"property"`
